@@ -1,7 +1,7 @@
 /-
-  Proofs.C13ExtDiscard — `discardOps` at any depth: along a path whose nodes are sub-documents
-  with distinct, non-operator keys, the seed holds at that path what is left of the value there
-  (`seedOf`), or nothing.
+  Proofs.C13ExtDiscard — what `_discard_operators` leaves of one condition (`seedOf`): nothing of
+  an operator document, the operand of `{$eq: x}`, a scalar itself; a discarded value leaves the
+  empty document behind.
 -/
 import Spec.UpsertExt
 import Proofs.C13Seed
@@ -11,17 +11,6 @@ set_option linter.unusedSimpArgs false
 
 namespace MongoModel.Proofs.C13Ext
 open MongoModel MongoModel.Spec MongoModel.Proofs.C13Lemmas
-
-/-- every node the path walks through is a sub-document with pairwise distinct keys none of which
-    is an operator (the value the path ends at is not inspected) -/
-def cleanAlong : List String → Val → Bool
-  | [], _ => true
-  | part :: rest, .doc fs =>
-    decide ((dkeys fs).Nodup) && fs.all (fun kv => !kv.1.startsWith "$") &&
-    (match dget part fs with
-     | some sub => cleanAlong rest sub
-     | none => true)
-  | _ :: _, _ => false
 
 /-- what an item's condition contributes to the seed: nothing when `_discard_operators` drops it
     (an operator document, a sub-document of operator documents), else what is left of it (a
@@ -62,74 +51,6 @@ theorem discardOps_true (v : Val) (h : (discardOps v).2 = true) : (discardOps v)
     · rename_i he; simp [he] at h
     · rename_i he; simp only [he, if_false] at h; exact discardFields_true fs [] h
   | _ => simp [discardOps] at h
-
-theorem getPath_nil_doc (h : String) (t : List String) : getPath (h :: t) (.doc []) = none := by
-  simp [getPath, dget]
-
-theorem cleanAlong_cons {part : String} {rest : List String} {d : Val}
-    (h : cleanAlong (part :: rest) d = true) :
-    ∃ fs, d = .doc fs ∧ (dkeys fs).Nodup ∧ (∀ kv ∈ fs, kv.1.startsWith "$" = false) ∧
-      ∀ sub, dget part fs = some sub → cleanAlong rest sub = true := by
-  cases d with
-  | doc fs =>
-    simp only [cleanAlong, Bool.and_eq_true, decide_eq_true_eq, List.all_eq_true,
-      Bool.not_eq_true'] at h
-    refine ⟨fs, rfl, h.1.1, h.1.2, ?_⟩
-    intro sub hs
-    have := h.2
-    rw [hs] at this
-    exact this
-  | _ => simp [cleanAlong] at h
-
-/-- the seed of a clean node at one of its keys -/
-theorem seed_node (fs : Fields) (part : String) (sub : Val) (hn : (dkeys fs).Nodup)
-    (hp : ∀ kv ∈ fs, kv.1.startsWith "$" = false) (hs : dget part fs = some sub) :
-    ∃ sf, (discardOps (.doc fs)).1 = .doc sf ∧
-      dget part sf = if (discardOps sub).2 then none else some (discardOps sub).1 := by
-  refine ⟨keep fs [], ?_, ?_⟩
-  · rw [discardOps]
-    cases fs with
-    | nil => rfl
-    | cons p r =>
-      simp only [List.isEmpty_cons, Bool.false_eq_true, if_false]
-      rw [discardFields_plain _ _ hp]
-  · rw [dget_keep part sub fs [] hn hs]
-    split <;> rfl
-
-/-- **`discardOps` along a clean path** -/
-theorem discard_path : ∀ (p : List String) (d v : Val), p ≠ [] → cleanAlong p d = true →
-    getPath p d = some v → getPath p (discardOps d).1 = seedOf v
-  | [], _, _, hp, _, _ => absurd rfl hp
-  | [part], d, v, _, hc, hg => by
-    obtain ⟨fs, rfl, hn, hnd, _⟩ := cleanAlong_cons hc
-    cases hs : dget part fs with
-    | none => simp [getPath, hs] at hg
-    | some sub =>
-      simp only [getPath, hs, Option.some.injEq] at hg
-      subst hg
-      obtain ⟨sf, h1, h2⟩ := seed_node fs part sub hn hnd hs
-      rw [h1]
-      by_cases hdis : (discardOps sub).2 = true
-      · simp [getPath, seedOf, h2, hdis]
-      · simp [getPath, seedOf, h2, hdis]
-  | part :: r1 :: rest, d, v, _, hc, hg => by
-    obtain ⟨fs, rfl, hn, hnd, hsubc⟩ := cleanAlong_cons hc
-    cases hs : dget part fs with
-    | none => simp [getPath, hs] at hg
-    | some sub =>
-      have hg' : getPath (r1 :: rest) sub = some v := by
-        simpa [getPath, hs] using hg
-      have ih := discard_path (r1 :: rest) sub v (by simp) (hsubc sub hs) hg'
-      obtain ⟨sf, h1, h2⟩ := seed_node fs part sub hn hnd hs
-      rw [h1]
-      by_cases hdis : (discardOps sub).2 = true
-      · rw [if_pos hdis] at h2
-        rw [discardOps_true sub hdis, getPath_nil_doc] at ih
-        rw [← ih]
-        simp [getPath, h2]
-      · rw [if_neg hdis] at h2
-        rw [← ih]
-        simp [getPath, h2]
 
 theorem seedOf_scalar (v : Val) (h : isScalar v = true) : seedOf v = some v := by
   simp [seedOf, discardOps_scalar v h]
